@@ -1,9 +1,9 @@
 import ChythonModel.Proofs.C14Neutral
-import ChythonModel.Props.C07
+import ChythonModel.Proofs.C14IsoSound
 /-!
 # C14 — helper lemmas: what `neutralize` leaves behind (donors are cations, acceptors anions, no donor is left once all gave
 # their proton). The one-atom acid pattern is handled directly (`getMapping_single`: the matcher on a one-step query is a
-# filter); the multi-atom base patterns through C07's exactness theorem `getMapping_exact`.
+# filter); the multi-atom base patterns through C07's soundness (`Proofs/C14IsoSound.lean: getMapping_sound`, assembled from C07's helper lemmas).
 -/
 namespace ChythonModel.Proofs.C14
 open ChythonModel.Model ChythonModel.Model.Std ChythonModel.Gen.Rules
@@ -484,19 +484,18 @@ theorem baseStripped_atom1 : (baseStripped.all fun p =>
 /-- **every acceptor is an anion**: on a well-formed molecule graph, with direction-independent bond tests, every atom that
     `matchFirstAtoms baseStripped` collects compares equal to pattern atom 1 of one of the base patterns, hence carries `−1` -/
 theorem acceptors_are_anions (m : Mol) (L : Labels) (comps : List (List Nat)) (as : List Nat)
-    (hwf : (graphOfMol m).WF = true) (hsym : ∀ p ∈ baseStripped, Props.C07.BondSymm (bondOk p m L))
+    (hwf : (graphOfMol m).WF = true) (hsym : ∀ p ∈ baseStripped, BondSymm (bondOk p m L))
     (h : matchFirstAtoms baseStripped m L comps = some as) :
     ∀ x ∈ as, ∃ a, m.atom? x = some a ∧ a.charge = -1 := by
   refine matchFirstAtoms_sound baseStripped m L comps _ ?_ as h
   intro p hp lq cl hcomp cand ds hds d hd x hl
-  obtain ⟨r, hr, _, hex⟩ := Props.C07.getMapping_exact (graphOfPattern p) (graphOfMol m) (baseStripped_wf p hp) hwf [lq] cl hcomp lq
+  obtain ⟨r, hr, hex⟩ := getMapping_sound (graphOfPattern p) (graphOfMol m) (baseStripped_wf p hp) hwf [lq] cl hcomp lq
     List.mem_cons_self (fun n => cand.contains n) (atomOk p m L) (bondOk p m L) (hsym p hp)
-  have henv : Props.C07.envOf (graphOfMol m) lq cl (fun n => cand.contains n) (atomOk p m L) (bondOk p m L) =
-      matchEnv p lq cl m L cand := rfl
-  rw [henv, hds] at hr
-  simp only [Option.some.injEq] at hr
-  subst hr
-  obtain ⟨f, rfl, emb⟩ := (hex d).mp hd
+  have hr' : Iso.getMapping (matchEnv p lq cl m L cand) = some r := hr
+  rw [hds] at hr'
+  simp only [Option.some.injEq] at hr'
+  subst hr'
+  obtain ⟨f, rfl, emb⟩ := hex d hd
   obtain ⟨h1, rfl⟩ := lookup_zip_map f _ 1 x hl
   have hok := emb.atom_matches 1 h1
   have hq := List.all_eq_true.mp baseStripped_atom1 p hp
@@ -548,5 +547,79 @@ theorem matchFirstAtoms_nodup (pats : List Pattern) (m : Mol) (L : Labels) (comp
     · obtain ⟨xs, _, rfl⟩ := Option.map_eq_some_iff.mp hs
       exact setUnion_nodup xs b hb
   · simp at hstep
+
+/-! ## direction independence of the bond test, from decidable well-formedness -/
+
+/-- every bond of the pattern is stored in both neighbour dicts with the same query bond (decidable, finite) -/
+def patSymm (p : Pattern) : Bool :=
+  p.adj.all fun ur => ur.2.all fun vb => patBond p vb.1 ur.1 == some vb.2
+
+/-- the ring flags were cached for both directions of every bond -/
+def ringSymm (L : Labels) : Bool := L.ringBonds.all fun xy => L.ringBonds.contains (xy.2, xy.1)
+
+theorem patBond_symm_of (p : Pattern) (h : patSymm p = true) (u v : Nat) (b : Query.QBond)
+    (hb : patBond p u v = some b) : patBond p v u = some b := by
+  unfold patBond at hb
+  cases hr : p.adj.lookup u with
+  | none => simp [hr] at hb
+  | some row =>
+    simp only [hr, Option.bind] at hb
+    have h1 := mem_of_lookup_eq_some _ _ _ hr
+    have h2 := mem_of_lookup_eq_some _ _ _ hb
+    have := List.all_eq_true.mp (List.all_eq_true.mp h (u, row) h1) (v, b) h2
+    simpa using this
+
+theorem patBond_symm (p : Pattern) (h : patSymm p = true) (u v : Nat) : patBond p u v = patBond p v u := by
+  cases h1 : patBond p u v with
+  | some b => exact (patBond_symm_of p h u v b h1).symm
+  | none =>
+    cases h2 : patBond p v u with
+    | none => rfl
+    | some b => rw [patBond_symm_of p h v u b h2] at h1; exact absurd h1 (by simp)
+
+theorem bond?_symm_of (m : Mol) (h : m.WF = true) (x y : Nat) (b : Bond) (hb : m.bond? x y = some b) : m.bond? y x = some b := by
+  unfold Mol.WF at h
+  simp only [Bool.and_eq_true, List.all_eq_true] at h
+  obtain ⟨_, hall⟩ := h
+  unfold Mol.bond? Mol.nbrs at hb
+  cases hr : m.adj.lookup x with
+  | none => simp [hr] at hb
+  | some row =>
+    simp only [hr, Option.getD_some] at hb
+    have h1 := mem_of_lookup_eq_some _ _ _ hr
+    have h2 := mem_of_lookup_eq_some _ _ _ hb
+    have := (hall (x, row) h1).2 (y, b) h2
+    simp only [Bool.and_eq_true, beq_iff_eq] at this
+    exact this.2
+
+theorem bond?_symm (m : Mol) (h : m.WF = true) (x y : Nat) : m.bond? x y = m.bond? y x := by
+  cases h1 : m.bond? x y with
+  | some b => exact (bond?_symm_of m h x y b h1).symm
+  | none =>
+    cases h2 : m.bond? y x with
+    | none => rfl
+    | some b => rw [bond?_symm_of m h y x b h2] at h1; exact absurd h1 (by simp)
+
+theorem ring_symm (L : Labels) (h : ringSymm L = true) (x y : Nat) : L.ringBonds.contains (x, y) = L.ringBonds.contains (y, x) := by
+  have key : ∀ a b, L.ringBonds.contains (a, b) = true → L.ringBonds.contains (b, a) = true := by
+    intro a b hab
+    have hm : (a, b) ∈ L.ringBonds := by simpa using hab
+    exact List.all_eq_true.mp h (a, b) hm
+  cases h1 : L.ringBonds.contains (x, y) with
+  | true => exact (key x y h1).symm
+  | false =>
+    cases h2 : L.ringBonds.contains (y, x) with
+    | false => rfl
+    | true => rw [key y x h2] at h1; exact absurd h1 (by simp)
+
+/-- **the bond test of the matcher does not depend on the direction** for a well-formed molecule (`Mol.WF`: one shared bond per
+    pair), symmetric cached ring flags and a symmetric pattern -/
+theorem bondOk_symm (p : Pattern) (m : Mol) (L : Labels) (hp : patSymm p = true) (hm : m.WF = true) (hl : ringSymm L = true) :
+    BondSymm (bondOk p m L) := by
+  intro u v x y
+  unfold bondOk
+  rw [patBond_symm p hp u v, bond?_symm m hm x y, ring_symm L hl x y]
+
+theorem baseStripped_patSymm : ∀ p ∈ baseStripped, patSymm p = true := by decide +kernel
 
 end ChythonModel.Proofs.C14
